@@ -266,7 +266,7 @@ pub fn sim_check(id: &str) -> Option<SimCheck> {
         },
         "C18" => SimCheck {
             id: "C18",
-            prof: Profile { gen: GenOpts { defaults_pct: 40, builddir_pct: 30, alt_manifest_pct: 25, regen_pct: 10, ..GenOpts::default() }, target_pct: 75, unknown_target_pct: 12, use_c_pct: 30, fault_pct: 5, kill_pct: 0, ..base },
+            prof: Profile { gen: GenOpts { defaults_pct: 40, builddir_pct: 30, alt_manifest_pct: 25, regen_pct: 10, ..GenOpts::default() }, target_pct: 75, unknown_target_pct: 12, use_c_pct: 30, fault_pct: 5, kill_pct: 0, hazard_pct: 12, ..base },
             quick: 150_000,
             thorough: 1_500_000,
             rule: "graphs with independent components; targets = subsets of outputs/sources in varying spellings, none (with/without default statements), unknown names; -f/-C/builddir combinations; oracle: started subset of the closure, dirty closure fully started on success, unknown name => error and nothing built, .n2_db only at <dir>/<builddir>/.n2_db. Non-trivial: requested closure is a proper non-empty subset and something ran",
